@@ -39,6 +39,32 @@ def core_defs_current(d: str) -> List[dict]:
                        capture_output=True, text=True, timeout=300, env=dict(os.environ, PYTHONPATH=__import__("os").environ.get("VF_REPO", "/repo") + "/src"))
     if r.returncode != 0 or not os.path.exists(os.path.join(out, "core_defs.py")):
         return [{"signature": "C16/CoreDefsStale/core-yaml-does-not-compile", "replay": {"stderr": r.stderr[-800:]}}]
+    # "exactly what the compiler produces": byte for byte, from the package's own build command, from two working directories
+    shipped = open(os.path.join(src, "core_defs.py"), "rb").read()
+    if open(os.path.join(out, "core_defs.py"), "rb").read() != shipped:
+        import difflib
+        dl = [l for l in difflib.unified_diff(shipped.decode(errors="replace").splitlines(), open(os.path.join(out, "core_defs.py"), errors="replace").read().splitlines(), lineterm="", n=0)
+              if l[:1] in "+-" and not l.startswith(("+++", "---"))]
+        viol.append({"signature": "C16/CoreDefsStale/bytes-differ", "replay": {"differing_lines": len(dl), "first": dl[:6]}})
+    out2 = os.path.join(d, "core2")
+    os.makedirs(out2)
+    r2 = subprocess.run(["/venv/bin/python", "-m", "pyrtma.compile", "-i", "core_defs/core_defs.yaml", "--py", "--combined", "-o", out2, "-n", "core_defs"], cwd=src,
+                        capture_output=True, text=True, timeout=300, env=dict(os.environ, PYTHONPATH=__import__("os").environ.get("VF_REPO", "/repo") + "/src"))
+    if r2.returncode != 0 or open(os.path.join(out2, "core_defs.py"), "rb").read() != open(os.path.join(out, "core_defs.py"), "rb").read():
+        viol.append({"signature": "C16/NonDeterministicOutput/py:core-defs-from-another-working-directory", "replay": {"stderr": r2.stderr[-400:]}})
+    else:
+        # the combined YAML of the core definitions through the command line again
+        out3 = os.path.join(d, "core3")
+        os.makedirs(out3)
+        r3 = subprocess.run(["/venv/bin/python", "-m", "pyrtma.compile", "-i", os.path.join(out2, "core_defs_combined.yaml"), "--py", "-o", out3, "-n", "core_defs"], cwd=d,
+                            capture_output=True, text=True, timeout=300, env=dict(os.environ, PYTHONPATH=__import__("os").environ.get("VF_REPO", "/repo") + "/src"))
+        if r3.returncode != 0 or not os.path.exists(os.path.join(out3, "core_defs.py")):
+            viol.append({"signature": "C16/YamlRoundTrip/core-combined-does-not-compile-from-command-line", "replay": {"out": (r3.stdout + r3.stderr)[-600:]}})
+        else:
+            s3, e3 = defs.sig_python(os.path.join(out3, "core_defs.py"), "core_defs_rt")
+            s1, e1b = defs.sig_python(os.path.join(out, "core_defs.py"), "core_defs_regen0")
+            if s3 is None or s1 is None or any(s3[sec] != s1[sec] for sec in ("messages", "structs", "constants", "mids", "strings")):
+                viol.append({"signature": "C16/YamlRoundTrip/core-combined-differs", "replay": {"errors": [str(e3)[-300:], str(e1b)[-300:]]}})
     new, e1 = defs.sig_python(os.path.join(out, "core_defs.py"), "core_defs_regen")
     old, e2 = defs.sig_python(os.path.join(src, "core_defs.py"), "core_defs_shipped")
     if new is None or old is None:
@@ -88,24 +114,31 @@ def two_closures_one_process(progs, d) -> List[dict]:
         defs.write_prog(out, root)
         return os.path.join(root, "root.yaml")
 
+    jobs = []
     for k in range(0, min(len(progs), 6), 2):
         a, b = progs[k]["p"], progs[k + 1]["p"]
-        ra = materialise(a, "AA_", os.path.join(d, f"seq{k}", "a"), 0)
-        rb = materialise(b, "BB_", os.path.join(d, f"seq{k}", "b"), 300)
+        jobs.append((f"seq{k}", a, b, "AA_", "BB_", 300, "second-closure"))
+        # the SAME names and expression texts in both closures, other constant values and native types:
+        # nothing may be remembered by name or by expression text from one compile to the next
+        b2 = dict(b, k=a["k"] + 1)
+        jobs.append((f"same{k}", a, b2, "", "", 0, "same-names-other-values"))
+    for tag, a, b, pa, pb, shift, what in jobs:
+        ra = materialise(a, pa, os.path.join(d, tag, "a"), 0)
+        rb = materialise(b, pb, os.path.join(d, tag, "b"), shift)
         outs = {}
         for mode in ("both", "alone"):
-            oa, ob = os.path.join(d, f"seq{k}", mode, "outA"), os.path.join(d, f"seq{k}", mode, "outB")
+            oa, ob = os.path.join(d, tag, mode, "outA"), os.path.join(d, tag, mode, "outB")
             r = subprocess.run(["/venv/bin/python", "-c", SEQ, mode, ra, oa, rb, ob], capture_output=True, text=True, timeout=600,
                                env=dict(os.environ, PYTHONHASHSEED="0"))
             if r.returncode != 0:
-                viol.append({"signature": "C16/NonDeterministicOutput/second-closure-in-one-process-fails", "replay": {"mode": mode, "out": (r.stdout + r.stderr)[-600:]}})
+                viol.append({"signature": f"C16/NonDeterministicOutput/{what}-in-one-process-fails", "replay": {"mode": mode, "out": (r.stdout + r.stderr)[-600:]}})
                 break
             outs[mode] = ob
         else:
             import filecmp
             for fn in ("gen.py", "gen.h", "gen.js", "gen.m", "gen_combined.yaml"):
                 if not filecmp.cmp(os.path.join(outs["both"], fn), os.path.join(outs["alone"], fn), shallow=False):
-                    viol.append({"signature": f"C16/NonDeterministicOutput/{fn.split('.')[-1]}:depends-on-earlier-compile-in-process",
+                    viol.append({"signature": f"C16/NonDeterministicOutput/{fn.split('.')[-1]}:depends-on-earlier-compile-in-process:{what}",
                                  "replay": {"params_a": a, "params_b": b, "file": fn}})
             p2, e2 = defs.parse(os.path.join(outs["both"], "gen_combined.yaml"), import_coredefs=False)
             if e2 is not None:
